@@ -34,6 +34,7 @@ func runC18(c *core.Ctx) {
 	rulePackageState(c)
 	ruleNoForeignAppend(c, "C18-R7", 8, "pdf")
 	ruleCloseOnce(c)
+	rulePoolPutOwnership(c, "C18-R9")
 }
 
 // accessesField lists the vertices of g that mention field `field` of pdf.Extractor.
@@ -1028,5 +1029,72 @@ func ruleCloseOnce(c *core.Ctx) {
 		for _, b := range bad {
 			o.Fail("%s", b)
 		}
+	})
+}
+
+// rulePoolPutOwnership (C18-R9): an object taken from a sync.Pool may be put
+// back only when nothing else can still use it.  Where the object (or an
+// alias) is captured by a function literal of the same function — the
+// encoder's write and close closures keep the zlib writer — the Put must be
+// inside such a literal (the owner's Close), not in the function body or in a
+// defer of the function, which would run while the returned encoder is still
+// alive and hand the same compressor to the next caller.
+func rulePoolPutOwnership(c *core.Ctx, rule string) {
+	c.Check(rule, "pdf/pool-put", "no pooled object is put back by the function that hands it out inside a closure", func(o *core.Ob) {
+		pkg := c.Prog.Pkg("pdf")
+		n := 0
+		for _, fn := range c.Prog.Funcs(pkg) {
+			info := fn.Info()
+			for _, cs := range core.CallsIn(info, fn.Decl, true) {
+				if cs.Key != "(*sync.Pool).Put" && cs.Key != "sync.(*Pool).Put" {
+					continue
+				}
+				n++
+				o.Count(1)
+				o.At(fn.Site(cs.Call, "returned to the pool"))
+				x := core.ObjOf(info, cs.Call.Args[0])
+				if x == nil {
+					continue
+				}
+				// aliases: y = x
+				al := map[types.Object]bool{x: true}
+				for changed := true; changed; {
+					changed = false
+					ast.Inspect(fn.Decl.Body, func(m ast.Node) bool {
+						if as, ok := m.(*ast.AssignStmt); ok && len(as.Lhs) == len(as.Rhs) {
+							for i := range as.Lhs {
+								if al[core.ObjOf(info, as.Rhs[i])] {
+									if l := core.ObjOf(info, as.Lhs[i]); l != nil && !al[l] {
+										al[l] = true
+										changed = true
+									}
+								}
+							}
+						}
+						return true
+					})
+				}
+				putLit := core.EnclosingFuncLit(fn.Decl, cs.Call)
+				captured := false
+				ast.Inspect(fn.Decl.Body, func(m ast.Node) bool {
+					fl, ok := m.(*ast.FuncLit)
+					if !ok || fl == putLit {
+						return true
+					}
+					// a deferred literal that only wraps the Put itself is the same thing as the Put
+					ast.Inspect(fl.Body, func(k ast.Node) bool {
+						if id, ok := k.(*ast.Ident); ok && al[info.ObjectOf(id)] {
+							captured = true
+						}
+						return true
+					})
+					return true
+				})
+				if captured && putLit == nil {
+					o.FailAt(fn.Site(cs.Call, ""), "%s: %s is put back into the pool by %s itself although closures created in the same function keep using it: the next caller of Get shares the object with the encoder that is still open", c.Prog.Pos(cs.Call.Pos()), x.Name(), fn.Key)
+				}
+			}
+		}
+		o.Require(n >= 2, "only %d Pool.Put calls found", n)
 	})
 }
